@@ -56,7 +56,18 @@ var allSrv struct {
 	l  []*srvInst
 }
 
-func newServer(variant int) (*srvInst, error) {
+// newServer starts a server of the given variant; a port taken by another process between the allocator's
+// probe and the bind is answered by trying the next block.
+func newServer(variant int) (s *srvInst, err error) {
+	for try := 0; try < 4; try++ {
+		if s, err = newServerOnce(variant); err == nil {
+			return s, nil
+		}
+	}
+	return nil, err
+}
+
+func newServerOnce(variant int) (*srvInst, error) {
 	s := &srvInst{variant: variant}
 	switch variant {
 	case 0:
@@ -153,8 +164,8 @@ func main() {
 		pools[i] = make(chan *srvInst, 16)
 	}
 
-	nTable := run.N(700, 8000)
-	nHist := run.N(300, 3000)
+	nTable := run.N(560, 6000)
+	nHist := run.N(240, 2400)
 	run.Parallel(nTable+nHist, 12, func(c *h.Case) {
 		t0 := time.Now()
 		if c.Idx < nTable {
